@@ -5,10 +5,12 @@ A history is a list of ops (JSON lists):
   ["act", A]                                   the program itself, outside any activation
   ["newset", [ids]]                            AgentSet([agents with those ids still alive], random=model.random)
   ["collect"]                                  gc.collect()
-  ["activate", kind, form, sref, script, args, kwargs]
-  ["group", kind, outer, byform, sref, m, script, args, kwargs]
+  ["activate", kind, form, sref, script, args, kwargs, script2?]
+  ["group", kind, outer, byform, sref, m, script, args, kwargs, script2?]
 with  A      = ["nop"] | ["rmself", keep] | ["rm", id, keep] | ["create", cls, n, keep] | ["drop", id] | ["add", id]
-      kind   = "do" | "shuffle_do" | "map";  form = "name" | "callable"
+               | ["raise"]                      the callback raises (the activation is aborted)
+               | ["nested", kind, sref]         the callback itself calls sref.do/shuffle_do/map; agents called there run script2
+      kind   = "do" | "shuffle_do" | "map" | "shuffle_then_do" (= set.shuffle().do(...));  form = "name" | "callable"
       sref   = ["all"] | ["type", c] | ["user", k]
       script = [[id, [A, ...]], ...]           what agent `id` does on its turn
 The program's references (`ext`) are real references kept in a list by the driver; agents are reached through a
@@ -30,7 +32,9 @@ RULE = ("histories = one Model; top-level creation/removal/reference keeping of 
         "AgentSets in arbitrary order, then 1-4 activations (do/shuffle_do/map by method name or callable, on "
         "model.agents, agents_by_type[c] or a program-made set, or through groupby(...).do/map) whose per-agent scripts "
         "do nothing / remove self / remove an earlier or later or dead agent (reference kept or not) / create agents / "
-        "drop or take references; ALL one-act scripts over sets of size <= 3 (4 thorough, and 4 in the enumerator) are run first; "
+        "drop or take references / raise / start a nested do, shuffle_do or map on any set (whose callbacks run a second script "
+        "and may raise too); 45% of the activations stay inside the statement's own quantifier (no raise, no nesting); "
+        "set.shuffle().do(...) is driven beside shuffle_do; ALL one-act scripts over sets of size <= 3 (4 thorough, and 4 in the enumerator) are run first; "
         "non-trivial = an activation that called >= 2 agents; distinct = SHA1 of the history")
 TRUSTED_BASE = [
     "Coq 8.16.1 kernel (coqc); vm_compute used for the non-vacuity examples and for evaluating the model in the correspondence",
@@ -44,10 +48,18 @@ TRUSTED_BASE = [
     "Uint63 primitive hash only in scratch Cases files, never under a theorem",
 ]
 ASSUMPTIONS = [
-    "callbacks do not raise, do not start a nested activation and do not add/discard members of model-owned sets directly",
+    "callbacks do not add/discard members of model-owned sets directly; nesting depth of activations is at most 2; "
+    "an exception raised by a callback is not caught inside callbacks (it leaves every running activation)",
     "no reference cycles through agents (a cycle counts as 'the program still holds a reference')",
     "agents removed from the model while the program keeps a reference MAY be called (the statement allows it); the model says they are",
 ]
+# the source functions Model/Activation.v transcribes (finer escalation than the per-class default)
+SOURCE_FUNCS = [("mesa/agent.py", "AgentSet.do"), ("mesa/agent.py", "AgentSet.shuffle_do"), ("mesa/agent.py", "AgentSet.map"),
+                ("mesa/agent.py", "AgentSet.shuffle"), ("mesa/agent.py", "AgentSet.groupby"), ("mesa/agent.py", "AgentSet.__init__"),
+                ("mesa/agent.py", "AgentSet.add"), ("mesa/agent.py", "AgentSet.remove"),
+                ("mesa/agent.py", "GroupBy.do"), ("mesa/agent.py", "GroupBy.map"),
+                ("mesa/agent.py", "Agent.__init__"), ("mesa/agent.py", "Agent.remove"),
+                ("mesa/model.py", "Model.register_agent"), ("mesa/model.py", "Model.deregister_agent")]
 NCLS = 3
 MAXCREATE = 3
 KINDS = ["do", "shuffle_do", "map"]
@@ -333,6 +345,7 @@ class _Run:
         self.nested_perms = {}   # (agent id, act index) -> recorded permutation of a nested shuffle_do
         self.failures = []
         self.opi = 0
+        self.active = []         # ids of the agents whose callbacks are running (outermost first)
 
     # --- what a callback / the program can do
     def exec_act(self, me, a, where=None):
@@ -389,16 +402,19 @@ class _Run:
 
     def call(self, agent, args, kwargs):
         uid = agent.unique_id
-        held = any(o is agent for o in self.ext)
+        # a reference is held by the program's own list or by a callback of this very agent that is still running
+        held = any(o is agent for o in self.ext) or uid in self.active
         self.calls.append((uid, len(self.events), args, kwargs, held))
         self.events.append(("call", uid))
         sc = self.script if self.depth == 0 else self.script2
         self.depth += 1
+        self.active.append(uid)
         try:
             for j, a in enumerate(sc.get(uid, ())):
                 self.exec_act(agent, a, (uid, j))
         finally:
             self.depth -= 1
+            self.active.pop()
         return 2 * uid + 1
 
     def nested(self, akind, sref, where):
@@ -522,9 +538,18 @@ def _check_activation(run, site, snap, expected_order, ev0, calls, failures, opi
     end = len(run.events)
     pos = {u: i for i, u in enumerate(expected_order)}
     stop = None
-    if raised and log:
-        # the exception left the loop during the last call: members after that agent are not visited, nobody is called afterwards
-        stop = pos.get(log[-1]) if ordered else -1
+    t_raise = next((t for t in range(ev0, end) if run.events[t][0] == "raise"), None)
+    if t_raise is not None:
+        # the exception leaves the loop during the call in progress: nobody is called afterwards,
+        # members after that agent (in visiting order) are not visited
+        late = [c[0] for c in calls if c[1] > t_raise]
+        if late:
+            failures.append({"key": f"C04/{site}/called-after-exception", "op": opi,
+                             "what": f"a callback raised (event {t_raise}) and {site} went on to call {late}; calls: {log}"})
+        before = [c[0] for c in calls if c[1] < t_raise]
+        stop = pos.get(before[-1], -1) if (ordered and before) else -1
+    elif raised:
+        stop = -1
     # every member not removed from its model before its turn is called
     for a in snap:
         if a in tcall:
@@ -941,7 +966,9 @@ LEVEL_TEXT = ("Machine-checked Coq theorems over a Gallina transcription of Agen
               "outcomes, one activation calls no agent twice, calls only members of the snapshot, in set order (in the shuffled "
               "order for shuffle_do), calls exactly those alive at their turn - in particular every member still registered at "
               "its turn, and never one that is dead - never calls an agent created during the call, and leaves the relative "
-              "order of the set untouched.  The model is tied to the code by differential evaluation on all one-act scripts over "
+              "order of the set untouched; agents_by_type[c] is the registry filtered by exact class in every reachable state; "
+              "shuffle_do equals shuffle() followed by do() on the same outcome; a raising callback ends the loop at once "
+              "(log = prefix + raiser); nested activations keep every invariant.  The model is tied to the code by differential evaluation on all one-act scripts over "
               "small sets and on random churn histories (T2); an independent oracle states the property on the implementation.")
 LEVEL_NOTE = ("Theorems are about the model; CPython's refcounting/weakref semantics are modelled, not verified; 'shuffle_do visits "
               "in the order shuffle() would produce' is checked implementation-against-implementation. No axioms.")
